@@ -42,6 +42,7 @@ var trFuncs = [][2]string{
 var trFuncsScan = [][2]string{
 	{"", "isFramesElidedLine"}, {"", "trimLeftSpace"}, {"", "atou"},
 	{"", "hasPrefix"}, {"", "hasSrcPrefix"}, {"", "isRootedIn"},
+	{"Call", "updateLocations"},
 }
 
 func trName(recv, fn string) string {
@@ -122,7 +123,9 @@ type translator struct {
 	stVars   []trLocal
 	impure   int // counts binds emitted (purity probe)
 	funcs    map[string]bool
-	depth    int
+	recvMut  string // name of a pointer receiver the function assigns through ("" if none): it is
+	// threaded as a local and returned together with the result
+	depth int
 	envSigs  map[string]string
 }
 
@@ -351,6 +354,12 @@ func (t *translator) pureExpr(e ast.Expr) string {
 			if id, ok := x.X.(*ast.Ident); ok && id.Name == "order" && structName(m.Key()) == "Bucket" {
 				return t.pureExpr(x.Index) + ".order"
 			}
+			if kb, ok := m.Key().Underlying().(*types.Basic); ok && kb.Info()&types.IsString != 0 {
+				if vb, ok := m.Elem().Underlying().(*types.Basic); ok && vb.Info()&types.IsString != 0 {
+					// m[k] on a map[string]string: the value, or "" when absent
+					return fmt.Sprintf("(AMap.get %s %s)", atom(t.pureExpr(x.X)), atom(t.pureExpr(x.Index)))
+				}
+			}
 			t.fail(e, "map lookup")
 		}
 		panic(trImpure{})
@@ -396,6 +405,10 @@ func (t *translator) builtinCall(x *ast.CallExpr, sub func(ast.Expr) string) (st
 		return fmt.Sprintf("(Bytes.hasPrefix %s %s)", atom(sub(x.Args[0])), atom(sub(x.Args[1]))), true
 	case "bytes.HasSuffix", "strings.HasSuffix":
 		return fmt.Sprintf("(Bytes.hasSuffix %s %s)", atom(sub(x.Args[0])), atom(sub(x.Args[1]))), true
+	case "sortedByLen":
+		// stack.go: the keys of the map, longest first, ties in lexical order (the model's sortedByLen;
+		// its agreement with the Go function is checked by the correspondence stream of C18)
+		return fmt.Sprintf("(sortedByLen %s)", atom(sub(x.Args[0]))), true
 	case "isFile":
 		// os.Stat: an oracle of the environment
 		return fmt.Sprintf("(E.isFile %s)", atom(sub(x.Args[0]))), true
@@ -471,6 +484,7 @@ func (t *translator) binop(x *ast.BinaryExpr, a, b string) string {
 		if !isStr {
 			return fmt.Sprintf("(%s + %s)", a, b)
 		}
+		return fmt.Sprintf("(%s ++ %s)", a, b)
 	case token.SUB:
 		return fmt.Sprintf("(%s - %s)", a, b)
 	case token.MUL:
@@ -775,9 +789,11 @@ func (t *translator) assigned(n ast.Node, outer []trLocal) []trLocal {
 		return true
 	})
 	var res []trLocal
+	seen := map[string]bool{}
 	for _, l := range outer {
 		raw := strings.Trim(l.name, "«»")
-		if set[raw] && !declared[raw] {
+		if set[raw] && !declared[raw] && !seen[l.name] {
+			seen[l.name] = true
 			res = append(res, l)
 		}
 	}
@@ -837,6 +853,9 @@ func unpack(vs []trLocal, st string, ind string) string {
 type trEnd func() string
 
 func (t *translator) wrapRet(v string) string {
+	if t.recvMut != "" {
+		v = "(" + t.recvMut + ", " + v + ")"
+	}
 	if t.inLoop {
 		return "some (.ret " + atom(v) + ")"
 	}
@@ -918,6 +937,51 @@ func (t *translator) stmts(list []ast.Stmt, end trEnd) string {
 		}
 		return t.assign(x, x.Lhs[0], x.Rhs[0], cont)
 	case *ast.IfStmt:
+		if as, ok := x.Init.(*ast.AssignStmt); ok && as.Tok == token.DEFINE && len(as.Lhs) == 1 && len(as.Rhs) == 1 {
+			// if i := strings.LastIndexByte(s, c); i != -1 { A } else { B }: the index is an Option here
+			if call, ok := as.Rhs[0].(*ast.CallExpr); ok {
+				if sel, ok := call.Fun.(*ast.SelectorExpr); ok && sel.Sel.Name == "LastIndexByte" && len(call.Args) == 2 {
+					iv := as.Lhs[0].(*ast.Ident)
+					cond, okc := x.Cond.(*ast.BinaryExpr)
+					isMinus1 := func(e ast.Expr) bool {
+						tv, ok := t.p.info.Types[e]
+						return ok && tv.Value != nil && tv.Value.ExactString() == "-1"
+					}
+					if ci, ok := cond.X.(*ast.Ident); !okc || !ok || ci.Name != iv.Name || cond.Op != token.NEQ || !isMinus1(cond.Y) {
+						t.fail(x, "LastIndexByte result used other than in `i != -1`")
+					}
+					if hasReturn(x.Body) || (x.Else != nil && hasReturn(x.Else)) {
+						t.fail(x, "return inside a LastIndexByte branch")
+					}
+					var el []ast.Stmt
+					if eb, ok := x.Else.(*ast.BlockStmt); ok {
+						el = eb.List
+					}
+					vs := t.assigned(&ast.BlockStmt{List: append(append([]ast.Stmt{}, x.Body.List...), el...)}, append(append([]trLocal{}, t.params...), t.scope...))
+					return t.bind(call.Args[0], func(str string) string {
+						return t.bind(call.Args[1], func(ch string) string {
+							saveLoop := t.inLoop
+							t.inLoop = false
+							saveRecv := t.recvMut
+							t.recvMut = ""
+							saveScope := append([]trLocal{}, t.scope...)
+							t.depth++
+							t.declare(lid(iv.Name), "Nat")
+							a := t.stmts(x.Body.List, func() string { return "some " + atom(tuple(vs)) })
+							b := t.stmts(el, func() string { return "some " + atom(tuple(vs)) })
+							t.depth--
+							t.scope = saveScope
+							t.inLoop, t.recvMut = saveLoop, saveRecv
+							pat := tuple(vs)
+							if len(vs) == 0 {
+								pat = "_"
+							}
+							return fmt.Sprintf("(match Bytes.lastIndexByte %s %s with\n%s| some %s =>\n%s  %s\n%s| none =>\n%s  %s).bind fun %s =>\n%s%s", atom(str), atom(ch), t.ind(), lid(iv.Name), t.ind(), a, t.ind(), t.ind(), b, pat, t.ind(), cont())
+						})
+					})
+				}
+			}
+		}
 		if x.Init != nil {
 			// if init; cond { … }  ==  { init; if cond { … } }  (the scope of init ends with the if;
 			// nothing after it can refer to what it declares)
@@ -954,7 +1018,18 @@ func (t *translator) stmts(list []ast.Stmt, end trEnd) string {
 			})
 		}
 		if hasReturn(x.Body) || (x.Else != nil && hasReturn(x.Else)) {
-			t.fail(x, "if statement that returns on some paths only")
+			// returns on some paths only: each branch is followed by the rest of the block
+			// (the rest is translated once per branch)
+			return t.bind(x.Cond, func(c string) string {
+				saveScope := append([]trLocal{}, t.scope...)
+				t.depth++
+				a := t.stmts(append(append([]ast.Stmt{}, x.Body.List...), rest...), end)
+				t.scope = append([]trLocal{}, saveScope...)
+				b := t.stmts(append(append([]ast.Stmt{}, el...), rest...), end)
+				t.depth--
+				t.scope = saveScope
+				return fmt.Sprintf("if %s then\n%s  %s\n%selse\n%s  %s", c, t.ind(), a, t.ind(), t.ind(), b)
+			})
 		}
 		// assignment-only branches: thread the assigned locals through
 		vs := t.assigned(x, append(append([]trLocal{}, t.params...), t.scope...))
@@ -1346,6 +1421,49 @@ func (p *pkgInfo) translateGroup(ns, from string, trFuncs [][2]string, withClosu
 			t.ret = rts[0]
 			if len(rts) > 1 {
 				t.ret = "(" + strings.Join(rts, " × ") + ")"
+			}
+			// a pointer receiver the body assigns through becomes a threaded local, returned with the result
+			if fd.Recv != nil && len(fd.Recv.List) == 1 && len(fd.Recv.List[0].Names) == 1 {
+				if _, isPtr := fd.Recv.List[0].Type.(*ast.StarExpr); isPtr {
+					rn := fd.Recv.List[0].Names[0].Name
+					writes := false
+					ast.Inspect(fd.Body, func(n ast.Node) bool {
+						var lhs []ast.Expr
+						switch x := n.(type) {
+						case *ast.AssignStmt:
+							if x.Tok != token.DEFINE {
+								lhs = x.Lhs
+							}
+						case *ast.IncDecStmt:
+							lhs = []ast.Expr{x.X}
+						}
+						for _, l := range lhs {
+							for {
+								switch y := l.(type) {
+								case *ast.SelectorExpr:
+									l = y.X
+									continue
+								case *ast.IndexExpr:
+									l = y.X
+									continue
+								case *ast.StarExpr:
+									l = y.X
+									continue
+								}
+								break
+							}
+							if id, ok := l.(*ast.Ident); ok && id.Name == rn {
+								writes = true
+							}
+						}
+						return true
+					})
+					if writes {
+						t.recvMut = lid(rn)
+						t.scope = append(t.scope, trLocal{lid(rn), t.params[0].typ})
+						t.ret = "(" + t.params[0].typ + " × " + t.ret + ")"
+					}
+				}
 			}
 			body := t.stmts(fd.Body.List, func() string { t.fail(fd, "function can fall off its end"); return "" })
 			var bind []string
